@@ -77,6 +77,10 @@ def main():
         if scratch:
             subprocess.run(["git", "-C", "/repo", "worktree", "remove", "--force", scratch + "/r"], check=False)
             shutil.rmtree(scratch, ignore_errors=True)
+        # the run regenerated lean/QclibModel/Gen/*.lean from the changed code: regenerate from /repo
+        env2 = {k: v for k, v in os.environ.items() if k != "QCLIB_REPO"}
+        subprocess.run(["python3", "tools/regen.py"] + [p for p in props if p], cwd=VERIF, env=env2,
+                       capture_output=True, text=True)
 
 
 if __name__ == "__main__":
